@@ -1,6 +1,8 @@
 //! Witness search for C04 / C03: the REAL deduplication::Chunker against an independent reference implementation of the gear-hash
 //! rule (first cut: length == max, or length > min-65 and the gear hash of the bytes from offset max(min-65,0) meets the mask), on
-//! structured streams and call partitions.  Prints `WITNESS ...` and exits 1 on the first disagreement.
+//! structured streams and call partitions, under the default limits and under (MINIMUM_CHUNK_DIVISOR, MAXIMUM_CHUNK_MULTIPLIER) =
+//! (6, 3), (3, 5), (16, 2) - one re-executed process per configuration, HF_XET_* overrides (honoured in builds with debug assertions).
+//! Prints `WITNESS ...` and exits 1 on the first disagreement.
 use deduplication::Chunker;
 use rand::rngs::StdRng;
 use rand::{Rng, SeedableRng};
@@ -87,12 +89,59 @@ fn real(data: &[u8], target: usize, pieces: &[usize], mode: u8) -> Vec<usize> {
     out
 }
 
+/// (MINIMUM_CHUNK_DIVISOR, MAXIMUM_CHUNK_MULTIPLIER) configurations; the constants are read once per process (and are overridable
+/// through HF_XET_* in builds with debug assertions, as the replay crate's is), so the program re-executes itself per configuration.
+const CONFIGS: [Option<(usize, usize)>; 4] = [None, Some((6, 3)), Some((3, 5)), Some((16, 2))];
+
 fn main() {
+    let args: Vec<String> = std::env::args().collect();
+    if !(args.len() == 3 && args[1] == "--child") {
+        let exe = std::env::current_exe().unwrap();
+        let handles: Vec<_> = (0..CONFIGS.len())
+            .map(|i| {
+                let mut cmd = std::process::Command::new(&exe);
+                cmd.arg("--child").arg(i.to_string()).stdout(std::process::Stdio::piped()).stderr(std::process::Stdio::piped());
+                cmd.env_remove("HF_XET_MINIMUM_CHUNK_DIVISOR").env_remove("HF_XET_MAXIMUM_CHUNK_MULTIPLIER");
+                if let Some((d, m)) = CONFIGS[i] {
+                    cmd.env("HF_XET_MINIMUM_CHUNK_DIVISOR", d.to_string()).env("HF_XET_MAXIMUM_CHUNK_MULTIPLIER", m.to_string());
+                }
+                let c = cmd.spawn().expect("spawn child");
+                std::thread::spawn(move || c.wait_with_output())
+            })
+            .collect();
+        let mut witness: Option<String> = None;
+        for (i, h) in handles.into_iter().enumerate() {
+            let out = h.join().unwrap().expect("child output");
+            let stdout = String::from_utf8_lossy(&out.stdout).to_string();
+            match out.status.code() {
+                Some(0) => {},
+                Some(1) => witness = witness.or(stdout.lines().find(|l| l.starts_with("WITNESS")).map(|s| s.to_string())),
+                Some(2) => { eprintln!("{stdout}"); std::process::exit(2); },
+                _ => {
+                    let err = String::from_utf8_lossy(&out.stderr);
+                    let tail: Vec<&str> = err.lines().rev().take(4).collect();
+                    witness = witness.or(Some(format!("WITNESS configuration {:?} (divisor, multiplier; None = defaults): the chunker process died ({:?}): {}", CONFIGS[i], out.status, tail.into_iter().rev().collect::<Vec<_>>().join(" | "))));
+                },
+            }
+        }
+        match witness {
+            Some(w) => { println!("{w}"); std::process::exit(1); },
+            None => { println!("no violation found"); return; },
+        }
+    }
     let div = *deduplication::constants::MINIMUM_CHUNK_DIVISOR;
     let mult = *deduplication::constants::MAXIMUM_CHUNK_MULTIPLIER;
+    // the non-default configurations run shorter streams and skip the two slowest call patterns
+    let default_config = CONFIGS[args[2].parse::<usize>().unwrap()].is_none();
+    if let Some((d, m)) = CONFIGS[args[2].parse::<usize>().unwrap()] {
+        if (div, mult) != (d, m) {
+            println!("infrastructure: HF_XET_MINIMUM_CHUNK_DIVISOR={d} / HF_XET_MAXIMUM_CHUNK_MULTIPLIER={m} were not picked up by this build (values {div}, {mult})");
+            std::process::exit(2);
+        }
+    }
     let mut rng = StdRng::seed_from_u64(std::env::var("VERIF_SEED").ok().and_then(|s| s.parse().ok()).unwrap_or(0));
     for &target in &[128usize, 1024, 4096, 65536] {
-        let len = (target * 200).min(6 << 20);
+        let len = (target * 200).min(if default_config { 6 << 20 } else { 2 << 20 });
         let mut streams: Vec<(String, Vec<u8>)> = vec![];
         let mut r = vec![0u8; len];
         rng.fill(&mut r[..]);
@@ -111,13 +160,16 @@ fn main() {
         for (name, s) in &streams {
             let want = reference(s, target, div, mult);
             for pieces in [vec![usize::MAX], vec![1usize], vec![4096], vec![(target / div).saturating_sub(70).max(1), 3, 1], vec![target * mult, 7], vec![8127, 1]] {
+              if !default_config && (pieces == [1] || pieces == [8127, 1]) && s.len() > 300_000 {
+                  continue;
+              }
               for mode in 0u8..3 {
                 let got = real(s, target, &pieces, mode);
                 let want = if mode == 2 { let mut w = want.clone(); w.extend_from_slice(&want); w } else { want.clone() };
                 if got != want {
                     let i = got.iter().zip(want.iter()).position(|(a, b)| a != b).unwrap_or(got.len().min(want.len()));
                     println!(
-                        "WITNESS Chunker(target={target}) on a {name} stream of {} bytes (rng seed in VERIF_SEED) fed in pieces {:?} (mode {mode}): chunk #{i} has length {:?} but the gear-hash rule gives {:?} ({} vs {} chunks)",
+                        "WITNESS [MINIMUM_CHUNK_DIVISOR={div}, MAXIMUM_CHUNK_MULTIPLIER={mult}] Chunker(target={target}) on a {name} stream of {} bytes (rng seed in VERIF_SEED) fed in pieces {:?} (mode {mode}): chunk #{i} has length {:?} but the gear-hash rule gives {:?} ({} vs {} chunks)",
                         s.len(), pieces, got.get(i), want.get(i), got.len(), want.len()
                     );
                     std::process::exit(1);
@@ -141,7 +193,7 @@ fn main() {
                     let want = if mode == 2 { let mut w = want.clone(); w.extend_from_slice(&want); w } else { want.clone() };
                     if got != want {
                         println!(
-                            "WITNESS Chunker(target={target}) on a random stream of {l} bytes fed in pieces {:?} (mode {mode}): chunk lengths {:?} but the gear-hash rule gives {:?}",
+                            "WITNESS [MINIMUM_CHUNK_DIVISOR={div}, MAXIMUM_CHUNK_MULTIPLIER={mult}] Chunker(target={target}) on a random stream of {l} bytes fed in pieces {:?} (mode {mode}): chunk lengths {:?} but the gear-hash rule gives {:?}",
                             pieces, got, want
                         );
                         std::process::exit(1);
